@@ -103,7 +103,8 @@ class SimFile(io.StringIO):
     def close(self):
         if not self._closed_once:
             self._closed_once = True
-            if "w" in self._mode or "a" in self._mode:
+            if "w" in self._mode or "a" in self._mode or "+" in self._mode:
+                # ("r+": the file is patched in place - read, seek, overwrite, append - and written back whole on close)
                 data = self.getvalue()
                 try:
                     if "a" in self._mode:
@@ -738,12 +739,42 @@ class SimWorld:
                 return builtins.open(file, mode, *a, **k)
             return fs.open(p, mode)
 
+        # os-level file access by relative path stays inside the simulated cwd as well (os.open + os.fdopen)
+        real_os_open, real_fdopen = os.open, os.fdopen
+        fake_fds = {}
+
+        def sim_os_open(path, flags, mode=0o777, *a, **k):
+            p = os.fspath(path)
+            if isinstance(p, bytes) or os.path.isabs(p):
+                return real_os_open(path, flags, mode, *a, **k)
+            if not (flags & os.O_CREAT) and not fs.exists(p):
+                raise FileNotFoundError(errno.ENOENT, os.strerror(errno.ENOENT), p)
+            fd = 1_000_000_000 + w.counters.get("os.open", 0)
+            w.count("os.open")
+            fake_fds[fd] = (p, flags)
+            return fd
+
+        def sim_fdopen(fd, mode="r", *a, **k):
+            if fd not in fake_fds:
+                return real_fdopen(fd, mode, *a, **k)
+            p, flags = fake_fds.pop(fd)
+            if flags & os.O_APPEND:
+                return fs.open(p, "a")
+            if (flags & os.O_TRUNC) or not fs.exists(p):
+                return fs.open(p, "w" if ("w" in mode or "a" in mode or "+" in mode or (flags & (os.O_WRONLY | os.O_RDWR))) else "r")
+            # an existing file opened for writing without truncation: written over from the start, the old tail stays
+            return fs.open(p, "r+" if (flags & (os.O_WRONLY | os.O_RDWR)) else "r")
+        self._set(os, "open", sim_os_open)
+        self._set(os, "fdopen", sim_fdopen)
         self._set(P, "write_text", write_text)
         self._set(P, "read_text", read_text)
         self._set(P, "read_bytes", read_bytes)
         self._set(P, "exists", exists)
         self._set(P, "unlink", unlink)
-        for mod in (M_cms, M_unigen, M_utility, M_ilp, M_main):
+        # every module of the library sees the simulated cwd through `open` (a refactoring may move file access from
+        # pathlib to open() in any of them; a module the simulator does not cover would look for the file on the real disk)
+        lib_mods = [m_ for n_, m_ in sorted(sys.modules.items()) if n_.startswith("sweetpea") and m_ is not None and hasattr(m_, "__dict__")]
+        for mod in lib_mods:
             self._set(mod, "open", sim_open)
         self._set(M_utility, "generate_uuid", self.uuid)
 
